@@ -8,10 +8,14 @@ import json, os, shutil, subprocess, sys, time
 V = os.path.dirname(os.path.dirname(os.path.abspath(__file__)))
 pid = sys.argv[1]
 suffix = sys.argv[2] if len(sys.argv) > 2 else ""
-src = "/tmp/seed/out/%s" % pid
+ROUND = os.environ.get("SEED_ROUND", "1")          # round 2 seeds live in /tmp/seed2 and are named -c / -d
+src = "/tmp/seed%s/out/%s" % ("" if ROUND == "1" else ROUND, pid)
 patch = os.path.join(src, "patch%s.diff" % suffix)
 demo = os.path.join(src, "demo%s.py" % suffix)
-name = "%s-%s" % (pid, "b" if suffix else "a")
+name = "%s-%s" % (pid, {"1": "ab", "2": "cd", "3": "ef"}[ROUND][1 if suffix else 0])
+if not os.path.exists(patch):                      # re-evaluation of a stored seed
+    src = os.path.join(V, "seeded", name)
+    patch, demo = os.path.join(src, "patch.diff"), os.path.join(src, "demo.py")
 wt = "/tmp/eval_%s" % name
 
 
@@ -69,10 +73,12 @@ finally:
     sh("rm -rf /tmp/evalverif_%s" % name)
 dst = os.path.join(V, "seeded", name)
 os.makedirs(dst, exist_ok=True)
-shutil.copy(patch, os.path.join(dst, "patch.diff"))
-shutil.copy(demo, os.path.join(dst, "demo.py"))
-if os.path.exists(os.path.join(src, "notes.md")):
-    shutil.copy(os.path.join(src, "notes.md"), os.path.join(dst, "notes.md"))
+if os.path.abspath(src) != os.path.abspath(dst):
+    shutil.copy(patch, os.path.join(dst, "patch.diff"))
+    shutil.copy(demo, os.path.join(dst, "demo.py"))
+    if os.path.exists(os.path.join(src, "notes.md")):
+        shutil.copy(os.path.join(src, "notes.md"), os.path.join(dst, "notes.md"))
+if os.path.exists(os.path.join(dst, "notes.md")):
     meta["needs_to_manifest"] = "see notes.md"
 meta["what_i_ran"] = ("fresh worktree of /repo HEAD under /tmp; demo on original; git apply patch; demo with patch; "
                       "tools/baseline.py --fast --repo <worktree> (pinned suite vs BASELINE.json); "
